@@ -259,3 +259,23 @@ def register_props(PROPS, g):
         PROPS[_p]["rule"] = PROPS[_p].get("rule", "") + ("; load: random spokfiles (variables by literal, join, exec, re-assigned, defined after their use; tasks whose dependencies and outputs mix "
                                                         "task names, names shared with variables, plain paths, paths with ? [ { characters, patterns, substring-related patterns) through parser -> file.New, "
                                                         "every task's fields compared with the model and with a reference of the harness")
+
+    # what the harness families added after the seed rounds vary (appended to the rules above; details in DESIGN.md section 11)
+    _more = {
+        "hash": "; entries that cannot be inspected (a link to itself, a path through a file, an over-long name) or opened-but-not-read (EIO); one hasher reused for all requests; implementation-only probes: files of 1 MiB .. 33 MiB (touch, edits at start/middle/end), lists longer than the CPU count (order, every position, dropping the last)",
+        "runcache": "; a dependency with pattern characters in its name, one realised as a symbolic link; an exhaustive kill-mid-run family; a spokfile that grows by a task after the cache file exists (op S); implementation only: a task whose command rewrites the next task's input",
+        "find": "; relative start/stop (implementation only); `spok --show` run in the start directory with HOME = stop on one case in six; 60-level chains (implementation only)",
+        "glob": "; project directories whose own name looks like a pattern",
+        "report": "; --debug, --clean with and without a task clean, --vars, 0-2 task names; stdout/stderr in regular files on every other invocation; a .env file in a third of the sandboxes; a command referring to a variable as {{ .MK }}; which commands really ran is read from a trace file",
+        "clean": "; every third case from the sandbox root with a relative --spokfile; every fifth with stdout on /dev/full; an implementation-only family with symbolic links (as outputs, as the way to the project)",
+        "effects": "; unreadable cache files left by earlier faults; decoy scratch files next to the spokfile; the spokfile as a symbolic link",
+        "graph": "; variables named like tasks; selections of 13-22 tasks in interleaved chains",
+        "syntax": "; every symbol string of length <= 3 inside 9 contexts (bodies, later command lines, argument lists, right-hand sides, outputs, comments, strings); an extended alphabet (BOM, Unicode spaces, NEL, letters ending in 0x85/0xA0, lone CR) for length <= 2 everywhere and in mutations; lines of 64 KiB and more (implementation only)",
+        "cst": "; identifiers in Hebrew, Cyrillic, Greek, Arabic, full-width and mathematical letters; later command lines starting with {{; comments starting with '#'; one file in eight re-rendered with Unicode spaces in its layout (implementation only); comments and docstrings read off the formatted text by an independent scanner; `spok --fmt` itself run twice on loadable files among decoy scratch files",
+        "vars": "; references written with blanks inside the delimiters; variable names that look like Go method names",
+    }
+    for _p, _spec in PROPS.items():
+        extra = "".join(_more[c] for c in _spec.get("components", []) if c in _more)
+        _spec.setdefault("rule", "corpus first, then bounded-exhaustive over the class alphabet, then seeded random programs, their prefixes, and mutations of the repository's own spokfiles and test literals (see stats)")
+        if extra:
+            _spec["rule"] = _spec["rule"] + " -- later additions" + extra
